@@ -1,2 +1,8 @@
 //! Shared harness code for the TLA+-driven verification of async-graphql.
 pub mod io;
+pub mod world;
+pub mod resp;
+pub mod fam;
+pub mod exec;
+pub mod doc;
+pub mod dynfam;
